@@ -199,7 +199,6 @@ def outcomeOfReal (kv : List (String × String)) : Outcome × Option String :=
     | .ok (some r) => (some r, bad)
     | .ok none => (none, bad.orElse fun _ => some "later-dead")
     | .error e => (none, bad.orElse fun _ => some s!"later-{e}")
-  let bad := if look kv "problem" != "-" then some s!"problem-{look kv "problem"}" else bad
   ({ src := 2, compiles := look kv "broken" != "1",
      results := parsed.map fun r => match r with | .ok o => o | .error _ => none,
      finalLib := finalLibOf (look kv "finallib"), lockLeft := look kv "lockleft" == "1", later := laterR }, bad)
@@ -222,6 +221,7 @@ def runCase (id : String) (kv : List (String × String)) (cache : Cache) : Strin
       | none, some _ => ("ok", "orig")
       | some _, none => ("ok", "recheck")
       | some a, some _ => (s!"DIFF:{a}", "none")
+    let corr := if look kv "problem" != "-" then s!"DIFF:schedule-diverged:{look kv "problem"}" else corr
     (s!"{id} kind=ctl corr={corr} variant={variant} judge={j} nontrivial={nt}", cache)
   else
     let n := natOf' (look kv "n")
@@ -234,6 +234,7 @@ def runCase (id : String) (kv : List (String × String)) (cache : Cache) : Strin
       if !(oko && okr) then ("skip:state-space", "both")
       else if mo && mr then ("ok", "both") else if mo then ("ok", "orig") else if mr then ("ok", "recheck")
       else ("DIFF:outcome-not-reachable-in-model", "none")
+    let corr := if look kv "problem" != "-" then s!"DIFF:harness:{look kv "problem"}" else corr
     (s!"{id} kind=free corr={corr} variant={variant} judge={j} nontrivial={nt} states={szo} outcomes={so.size}", cache)
 
 def enumAll (variant : Variant) : IO Unit := do
